@@ -318,8 +318,10 @@ def judge_all(rep, pid, cases, nontrivial):
     """cases: scenarios (with flav; sc["summary"] = True for TLC-enumerated ones).
     Runs them against the real code, lets TLC decide.
 
-    A case conforms under D iff its event log is a behaviour of the module with Dev = D and (for
-    TLC-enumerated scenarios) the observed summary is one TLC computes with Dev = D."""
+    A case conforms under D iff its event log (which carries the class state at every observable
+    point, what is retained and the follow-up comparison) is a behaviour of the module with Dev = D;
+    for TLC-enumerated scenarios a pass additionally needs the observed summary to be one of those
+    TLC computes for the scenario with Dev = {}."""
     from concurrent.futures import ThreadPoolExecutor
     findings = {f["deviation"]: f["id"] for f in common.open_findings(pid)}
     runs = []
@@ -332,13 +334,15 @@ def judge_all(rep, pid, cases, nontrivial):
     fallback = {}
     why = {}
     best = {}
+    hard = set()
     stats = []
     for level in [[frozenset()]] + list(dev_levels(findings)):
         if not pending:
             break
         sub = [runs[i] for i in pending]
         withsum = [x["sc"] for x in sub if x["sc"].get("summary")]
-        jobs = [("t", D) for D in level] + ([("s", D) for D in level] if withsum else [])
+        # the summary is a cross-check of the pass verdict: evaluated with Dev = {} only
+        jobs = [("t", D) for D in level] + ([("s", D) for D in level if not D] if withsum else [])
 
         def work(job):
             kind, D = job
@@ -356,12 +360,13 @@ def judge_all(rep, pid, cases, nontrivial):
                     k = best[i] = got[j][0]      # report the deviation set that explains the longest prefix
                     why[i] = (f"event {k + 1} of the recorded load is not a step of LoaderUser!Next with "
                               f"Dev={sorted(D)}: {json.dumps(x['trace']['events'][k])[:260]}")
-                if ok and x["sc"].get("summary"):
+                if ok and not D and x["sc"].get("summary"):
                     sums, _ = res[("s", D)]
                     exps = [common.canon(project(expected_obs(e), pid)) for e in sums[x["sc"]["id"]]]
                     o = project(x["obs"], pid)
                     ok = common.canon(o) in exps
                     if not ok:
+                        hard.add(i)          # a behaviour of the module whose summary differs: never a finding
                         best[i] = 10 ** 6
                         why[i] = (f"the event log is a behaviour with Dev={sorted(D)} but the summary differs: observed "
                                   f"{common.canon(o)[:240]} but LoaderUser.tla gives {exps[0][:240]}")
@@ -371,7 +376,9 @@ def judge_all(rep, pid, cases, nontrivial):
             if found is not None and len(found) > 1 and len(found) == len(findings) and len(level) > 1 and len(findings) > 2:
                 fallback[i] = found      # explained by all clauses together: look for a smaller set first
                 found = None
-            if found is None:
+            if found is None and i in hard:
+                pass
+            elif found is None:
                 still.append(i)
             else:
                 verdict[i] = found
@@ -411,13 +418,17 @@ def replay_case(path, pid):
     for level in [[frozenset()]] + list(dev_levels(findings)):
         for D in level:
             got, _ = validate([tr], D)
-            sums, _ = summaries([sc], D)
-            exps = [common.canon(project(expected_obs(e), pid)) for e in sums[sc["id"]]]
-            ok = got[0][0] == got[0][1] and o in exps
-            print(f"Dev={sorted(D)}: event log matched {got[0][0]} of {got[0][1]} events; summary "
-                  f"{'is' if o in exps else 'is not'} one of the {len(exps)} the module allows")
-            if not D and o not in exps:
-                print("expected", exps[0])
+            ok = got[0][0] == got[0][1]
+            print(f"Dev={sorted(D)}: event log matched {got[0][0]} of {got[0][1]} events")
+            if not D:
+                sums, _ = summaries([sc], D)
+                exps = [common.canon(project(expected_obs(e), pid)) for e in sums[sc["id"]]]
+                print(f"summary {'is' if o in exps else 'is not'} one of the {len(exps)} the module allows with Dev={{}}")
+                if o not in exps:
+                    print("expected", exps[0])
+                    if ok:
+                        return 1
+                    ok = False
             if ok:
                 print("conforms" if not D else "explained by listed findings " + ", ".join(findings[d] for d in sorted(D)))
                 return 0
